@@ -506,14 +506,30 @@ def main(argv):
                 mt, still = minimise(exe, tape, a.tier, arm.get('env'), budget, is_fuzz)
             except Exception as e:
                 log('minimise failed', e); mt, still = tape, True
-            if not still:
-                res['inconclusive'].append('failure did not reproduce from its tape: %s' % tape)
-                res['labels']['unreproduced_failures'] = res['labels'].get('unreproduced_failures', 0) + 1
-                continue
-            ok, txt = confirm3(exe, mt, a.tier, arm.get('env'), is_fuzz)
+            ok, txt = (False, '')
+            if still:
+                ok, txt = confirm3(exe, mt, a.tier, arm.get('env'), is_fuzz)
             if not ok:
-                res['inconclusive'].append('failure not stable over three replays: %s' % tape)
-                continue
+                # Threaded code: a sanitizer report inside the library is evidence of a violation on the execution that
+                # produced it even when the schedule does not recur on replay. Such a report is kept (tape + report) and
+                # counted as a violation only for arms that run library threads and only when the report's frames are in /repo.
+                logp = os.path.join(os.path.dirname(tape), 'log')
+                rep = open(logp, errors='replace').read() if os.path.exists(logp) else ''
+                m = re.search(r'(ERROR: AddressSanitizer|WARNING: ThreadSanitizer|runtime error:)', rep)
+                if arm.get('threads') and m and '/repo/lib' in rep:
+                    for _ in range(12):   # try harder to reproduce before falling back to the recorded report
+                        s2, t2 = run_replay(exe, tape, a.tier, arm.get('env'), 600, is_fuzz)
+                        if s2 in ('fail', 'crash'):
+                            txt = t2; break
+                    else:
+                        txt = rep[m.start():m.start() + 8000] + '\n[schedule-dependent: did not recur in 12 replays; report taken from the run log]'
+                    mt = tape
+                    ok = True
+                    res['labels']['schedule_dependent_reports'] = res['labels'].get('schedule_dependent_reports', 0) + 1
+                else:
+                    res['inconclusive'].append('failure %s from its tape: %s' % ('not stable over three replays' if still else 'did not reproduce', tape))
+                    res['labels']['unreproduced_failures'] = res['labels'].get('unreproduced_failures', 0) + 1
+                    continue
             summ = summarize_failure(txt)
             norm = re.sub(r'0x[0-9a-f]+|\d+', '#', summ)
             if norm in seen_summ:
